@@ -54,7 +54,8 @@ def tsdValue (t : TsdTerms) (normalized : Bool) : Float :=
   let score := t.score.foldl (fun acc p => acc + ratToFloat p.1 * Float.log (ratToFloat (p.1 / p.2))) 0.0
   if normalized then
     let mi := t.mutualInfo.foldl (fun acc p => acc + ratToFloat p.1 * Float.log (ratToFloat (p.1 / p.2))) 0.0
-    if mi > 0.0 then score / mi else score
+    -- repaired code: `if mutual_information > 1e-10: score = min(max(score / mutual_information, 0.), 1.)`
+    if mi > 1e-10 then (let q := score / mi; if q < 0.0 then 0.0 else if q > 1.0 then 1.0 else q) else score
   else score
 
 def handle : Handler
